@@ -508,6 +508,55 @@ theorem C13_construct_log_order_witness :
       [(['x'], 2), (['x', '0'], 3), (['x', '1'], 6)] := by
   decide +kernel
 
+/-! ### state-carrying operations and node states -/
+
+/-- `copy.copy(composite)` / a composite coming back from a by-value executor: as a history of
+re-parenting steps it is covered by `C13_history`; spelled out: after it (whatever was accepted on
+the way) the invariant holds — in particular no node is listed by the original and the copy -/
+theorem C13_copy_wf (fuel : Nat) (t : Tree) (h : WFTree t) (c c' : Nat)
+    (ha : Admissible (Cfg.repaired fuel) t (copyOps t c c')) :
+    WFTree (run (Cfg.repaired fuel) t (copyOps t c c')) :=
+  run_wf (repaired_repaired fuel) _ t h ha
+
+def base15 : List Op := [.new 4 ['m'] none, .new 2 ['a'] (some 4), .new 3 ['b'] (some 4), .setStarting 4 [2]]
+def t15 : Tree := run rep exEmpty base15
+theorem t15_wf : WFTree t15 := C13_history 64 _ _ _ base15 (by decide)
+
+example : Admissible rep t15 (copyOps t15 4 5) ∧
+    (run rep t15 (copyOps t15 4 5)).children 5 = [(['a'], 2), (['b'], 3)] ∧
+    (run rep t15 (copyOps t15 4 5)).children 4 = [] ∧ (run rep t15 (copyOps t15 4 5)).starting 5 = [2] ∧
+    (run rep t15 (copyOps t15 4 5)).starting 4 = [] := by decide +kernel
+
+/-- seeded change C13-12 (`LexicalParent.__setstate__` writes `child._parent = self` instead of
+asking through the parent setter): the copy and the original both list the children -/
+theorem C13_setstate_raw_witness : WFTree t15 ∧ ¬ WFTree (copyRaw t15 4 5) := by
+  refine ⟨t15_wf, fun hw => ?_⟩
+  have h1 : (['a'], 2) ∈ (copyRaw t15 4 5).children 4 := by decide
+  have h2 : (['a'], 2) ∈ (copyRaw t15 4 5).children 5 := by decide
+  have := (hw.one_parent h1 h2).1
+  cases this
+
+/-- seeded change C13-10 (a running node refuses to change parent, `remove_child` pops first): the
+refusal arrives half-way; asking first makes it all-or-nothing, for every run state -/
+theorem C13_running_guard (cfg : Cfg) (running : Nat → Bool) (t : Tree) (h : WFTree t) (q c : Nat) :
+    Good t (removeChildGuarded cfg true running t q c) := by
+  unfold removeChildGuarded
+  split
+  · exact good_same h _
+  · split
+    · exact good_same h _
+    · split
+      · exact removeChild_good cfg h q c
+      · simp only [if_true]; exact good_same h _
+
+theorem C13_running_pop_first_witness :
+    (removeChildGuarded rep false (fun _ => true) t15 4 2).2 = .runtimeError ∧
+    ¬ WFTree (removeChildGuarded rep false (fun _ => true) t15 4 2).1 := by
+  refine ⟨by decide, fun hw => ?_⟩
+  have hp : (removeChildGuarded rep false (fun _ => true) t15 4 2).1.parent 2 = some 4 := by decide
+  have := (hw.agree 4 2 ['a']).mpr ⟨hp, by decide⟩
+  exact absurd this (by decide)
+
 def base10 : List Op := [.new 0 ['u'] none]
 def t10 : Tree := run rep exEmpty base10
 /-- KF-C13-10: a macro whose graph creator adds a child labelled like the root workflow cannot
@@ -543,6 +592,10 @@ end PwVerif.C13
 #print axioms PwVerif.C13.C13_load_orphans_witness
 #print axioms PwVerif.C13.C13_construct_all_or_nothing
 #print axioms PwVerif.C13.C13_construct_log_order_witness
+#print axioms PwVerif.C13.C13_copy_wf
+#print axioms PwVerif.C13.C13_setstate_raw_witness
+#print axioms PwVerif.C13.C13_running_guard
+#print axioms PwVerif.C13.C13_running_pop_first_witness
 #print axioms PwVerif.C13.C13_replace_refused_unchanged
 #print axioms PwVerif.C13.C13_one_parent
 #print axioms PwVerif.C13.C13_rank
